@@ -135,12 +135,17 @@ Definition float_order_ok (vs : list b64) : bool :=
                 || b64_lt x y || b64_lt y x || b64_lt y z || b64_lt z y
                 || negb (b64_lt x z || b64_lt z x))) vs) vs) vs.
 
+(** math.Pow returned the correctly rounded powers (hypothesis [pow_rounded] of
+    Proofs/NumSpec.num_spec) *)
+Definition pow_table_ok (o : oracle) : bool :=
+  forallb (fun '(b, e, v) => b64_same v (b64_of_Z (b ^ e))) (o_pow o).
+
 Definition corr_ok (c : case) : bool :=
   RunC08.corr_ok c &&
   match case_oracle c with
   | None => false
   | Some o =>
-      float_order_ok (num_values o) &&
+      float_order_ok (num_values o) && pow_table_ok o &&
       match c with
       | CFree ops _ obs _ => run_corr9 o ops obs
       | CProto ex st runs _ => forallb (fun r => run_corr9 o (proto_ops ex st (pr_perm r)) (pr_obs r)) runs
@@ -150,17 +155,40 @@ Definition corr_ok (c : case) : bool :=
 Definition obs_ok (ob : pobs) : bool :=
   Nat.eqb (length (po_less ob)) (length (po_keys ob)) && strict_total (po_less ob) && sorts_ok ob.
 
-(** first-observation order, from the observations alone: Keys are numbered in
-    interning order, so for a field ordered "first" (top-level or sub-field of
-    .config) and two non-empty values, the value whose first Key has the smaller
-    number must sort first. [isfirst] marks the flattened positions whose
-    expression asks for (or defaults to) observation order. *)
-Definition first_flags (wu : bool) (fs : list pspec) (fo : list fobs) : list bool :=
-  flat_map (fun '(s, f) =>
-              let b := beq (ps_order s) (bs "first") in
-              if fo_tuple f then map (fun _ => b) (fo_subs f) else [b])
-           (combine fs fo)
-  ++ (if wu then [true] else []).
+(** ** the documented per-field orders, from the observations alone
+
+    For every pair of Keys, the first flattened field on which they differ
+    decides; what that field must say is given by its expression:
+    - num: [Model.Sort.num_before] — the declarative specification (value
+      denoted by each string via the ParseFloat table and EXACT powers, numbers
+      before non-numbers, NaN last among numbers, ties by string order);
+    - alpha: string order;
+    - first (top-level or sub-field of .config, .unit, residue): Keys are numbered
+      in interning order, so of two non-empty values the one whose first Key has
+      the smaller number sorts first;
+    - fixed: words listed exactly once compare by their positions. *)
+
+(** the parsed fields each projection was built from; [None] = a residue *)
+Fixpoint proj_specs (ops : list op) (outs : list (list Z)) : list (option (bool * list pspec)) :=
+  match ops, outs with
+  | OpParse wu fs :: ops', o :: outs' =>
+      match o with
+      | [1%Z] => Some (wu, fs) :: proj_specs ops' outs'
+      | _ => proj_specs ops' outs'
+      end
+  | OpResidue :: ops', _ :: outs' => None :: proj_specs ops' outs'
+  | _ :: ops', _ :: outs' => proj_specs ops' outs'
+  | _, _ => []
+  end.
+
+Definition flat_specs (sp : option (bool * list pspec)) (o : pobs) : list pspec :=
+  match sp with
+  | None => map (fun _ => spec_first []) (po_flat o)
+  | Some (wu, fs) =>
+      flat_map (fun '(s, f) => if fo_tuple f then map (fun _ => s) (fo_subs f) else [s])
+               (combine fs (po_fields o))
+      ++ (if wu then [spec_first key_unit] else [])
+  end.
 
 Fixpoint first_key_with (j : nat) (v : bytes) (ks : list kobs) (i : nat) : nat :=
   match ks with
@@ -174,33 +202,65 @@ Fixpoint first_diff (a b : list bytes) (j : nat) : option (nat * bytes * bytes) 
   | _, _ => None
   end.
 
-Definition first_order_ok (flags : list bool) (ob : pobs) : bool :=
-  let ks := po_keys ob in
-  forallb (fun '(i, ka) =>
-    forallb (fun '(j, kb) =>
-      match first_diff (ko_gets ka) (ko_gets kb) 0 with
-      | Some (pos, va, vb) =>
-          if nth pos flags false && negb (is_nil va) && negb (is_nil vb)
-          then Bool.eqb (mat (po_less ob) i j)
-                        (Nat.ltb (first_key_with pos va ks 0) (first_key_with pos vb ks 0))
-          else true
-      | None => true
-      end) (combine (seq 0 (length ks)) ks)) (combine (seq 0 (length ks)) ks).
+Definition count_b (v : bytes) (l : list bytes) : nat := length (filter (beq v) l).
+Fixpoint pos_b (v : bytes) (l : list bytes) (i : nat) : nat :=
+  match l with [] => i | x :: l' => if beq x v then i else pos_b v l' (S i) end.
 
-Definition run_first_ok (ex : list expr) (r : prun) : bool :=
-  let ob (pi : nat) := nth pi (pr_obs r) (mkPO [] [] [] [] [] []) in
-  forallb (fun e => match nth_error ex e with
-                    | Some x => let o := ob (pidx (pr_perm r) e) in
-                                first_order_ok (first_flags (e_unit x) (e_fields x) (po_fields o)) o
-                    | None => false end) (seq 0 (length ex))
-  && (let o := ob (length (pr_perm r)) in
-      first_order_ok (first_flags false (residue_fields ex) (po_fields o)) o).
+(** the specification can be evaluated on [v]: ParseFloat's verdicts are recorded *)
+Definition spec_evaluable (o : oracle) (v : bytes) : bool :=
+  match pf_lookup (o_pf o) v with
+  | None => false
+  | Some (Some _) => true
+  | Some None =>
+      match take_while is_numch (drop_while (fun c => negb (is_numch c)) v) with
+      | [] => true
+      | run => match pf_lookup (o_pf o) run with Some _ => true | None => false end
+      end
+  end.
+
+Definition pair_ok (o : oracle) (flags : list pspec) (ob : pobs) (i j : nat) (ka kb : kobs) : bool :=
+  match first_diff (ko_gets ka) (ko_gets kb) 0 with
+  | None => true
+  | Some (pos, va, vb) =>
+      match nth_error flags pos with
+      | None => true
+      | Some s =>
+          let got := mat (po_less ob) i j in
+          if beq (ps_order s) (bs "num") then
+            if spec_evaluable o va && spec_evaluable o vb
+            then Bool.eqb got (num_before (o_parse_float o) va vb) else true
+          else if beq (ps_order s) (bs "alpha") then Bool.eqb got (bltb va vb)
+          else if beq (ps_order s) (bs "first") then
+            if negb (is_nil va) && negb (is_nil vb)
+            then Bool.eqb got (Nat.ltb (first_key_with pos va (po_keys ob) 0)
+                                       (first_key_with pos vb (po_keys ob) 0))
+            else true
+          else if beq (ps_order s) (bs "fixed") then
+            if Nat.eqb (count_b va (ps_fixed s)) 1 && Nat.eqb (count_b vb (ps_fixed s)) 1
+            then Bool.eqb got (Nat.ltb (pos_b va (ps_fixed s) 0) (pos_b vb (ps_fixed s) 0))
+            else true
+          else true
+      end
+  end.
+
+Definition order_spec_ok (o : oracle) (flags : list pspec) (ob : pobs) : bool :=
+  let iks := combine (seq 0 (length (po_keys ob))) (po_keys ob) in
+  forallb (fun '(i, ka) => forallb (fun '(j, kb) => pair_ok o flags ob i j ka kb) iks) iks.
+
+Definition run_order_ok (o : oracle) (ops : list op) (outs : list (list Z)) (obs : list pobs) : bool :=
+  forallb2 (fun sp ob => order_spec_ok o (flat_specs sp ob) ob) (proj_specs ops outs) obs.
 
 Definition prop_ok (c : case) : bool :=
   RunC08.prop_ok c &&
-  match c with
-  | CFree _ _ obs _ => forallb obs_ok obs
-  | CProto ex _ runs _ => forallb (fun r => forallb obs_ok (pr_obs r) && run_first_ok ex r) runs
+  match case_oracle c with
+  | None => false
+  | Some o =>
+      match c with
+      | CFree ops outs obs _ => forallb obs_ok obs && run_order_ok o ops outs obs
+      | CProto ex st runs _ =>
+          forallb (fun r => forallb obs_ok (pr_obs r)
+                            && run_order_ok o (proto_ops ex st (pr_perm r)) (pr_outs r) (pr_obs r)) runs
+      end
   end.
 
 Definition run_case (s : sx) : N :=
